@@ -35,12 +35,14 @@ def own (op : String) (j : Json) : Option (Except String Json) :=
     let p ← C13.pDict C13.pBallot (← j.getObjVal? "votes")
     let name ← j.getObjValAs? String "name"
     let n ← j.getObjValAs? Nat "n"
+    -- the converter mode `unranked_at_bottom` (default true = `RankedToCondorcetVotes()`)
+    let ab := (j.getObjValAs? Bool "bottom").toOption.getD true
     match name with
-    | "winner" => pure (toJson (condorcetSeatless Condorcet.condorcetWinner p))
-    | "smith" => pure (toJson (condorcetSeatless Condorcet.smithSet p))
-    | "schwartz" => pure (toJson (condorcetSeatless Condorcet.schwartzSet p))
+    | "winner" => pure (toJson (condorcetSeatlessAt ab Condorcet.condorcetWinner p))
+    | "smith" => pure (toJson (condorcetSeatlessAt ab Condorcet.smithSet p))
+    | "schwartz" => pure (toJson (condorcetSeatlessAt ab Condorcet.schwartzSet p))
     | _ =>
-      match condorcetRule (C05.evalByName name) p n with
+      match condorcetRuleAt ab (C05.evalByName name) p n with
       | some r => pure (exceptJson slotsJson r)
       | none => throw s!"unknown evaluator {name}"
   | "c10_pav" => some do
